@@ -16,6 +16,7 @@ import Driver.OpsEncI
 import Driver.OpsSeqI
 import Driver.OpsOptDoc
 import Driver.OpsWrap
+import Driver.OpsTok
 namespace Mxj.Drv
 
 def dispatch (op : String) (args : List String) : Out :=
@@ -41,6 +42,7 @@ def dispatch (op : String) (args : List String) : Out :=
   | "cast" => runP opCast args
   | "xenc" => runP opXenc args
   | "xrt" => runP opXrt args
+  | "xtok" => runP opXtok args
   | "xseq" => runP opXseq args
   | "jenc" => runP opJenc args
   | "jenci" => runP opJenci args
